@@ -26,9 +26,9 @@ type RuleOp struct {
 	UEIP   string // UE IPv4 address inside the PDI ("" = none)
 	SrcIf  uint8
 	// FAR
-	Action []byte // apply-action octets (nil = omit in updates; create default FORW)
-	TEID   uint32
-	Peer   string // outer header creation peer IPv4 ("" = no forwarding parameters)
+	Action      []byte // apply-action octets (nil = omit in updates; create default FORW)
+	TEID        uint32
+	Peer        string // outer header creation peer IPv4 ("" = no forwarding parameters)
 	ActionFirst bool
 	// URR
 	Trig   []byte // reporting-trigger octets (nil: create default VOLTH)
